@@ -15,13 +15,14 @@ Theorem C02_parse : forall f name t rest fuel,
   run_flat (Decode f (dec_tree fuel)) (doc f name t ++ rest) = FOk (root_name f name, t) rest.
 Proof. exact decode_tree_doc. Qed.
 
-(* ROUND TRIP, tree level: for every documented type without interface-typed parts and every value of it the
+(* ROUND TRIP, tree level: for every documented type (interfaces holding canonical dynamic values and fields
+   with the `list` option included) and every value of it the
    encoder accepts, what is written is a well-formed tree of the tag getTagType selected, and the decoder's
    kind switch on it (fresh destination) gives exactly canon t v - the property's equality as a normal form *)
 Theorem C02_roundtrip_tree : forall t v tr,
-  documented t = true -> covered t = true -> has_type t v = true -> enc t v = TOk tr ->
+  documented t = true -> has_type t v = true -> enc t v = TOk tr ->
   wf tr /\ tag_id tr = get_tag t v /\ unm tr t = UOk (canon t v).
-Proof. intros t v tr Hd Hc Ht He. exact (rt_all t Hd Hc v tr Ht He). Qed.
+Proof. intros t v tr Hd Ht He. exact (rt_all t Hd v tr Ht He). Qed.
 
 (* ROUND TRIP, bytes: both formats, value or pointer handed to Marshal, every root name: if Marshal returns
    bytes, they are the document of a well-formed tree, and Unmarshal of exactly these bytes into a fresh
@@ -29,12 +30,12 @@ Proof. intros t v tr Hd Hc Ht He. exact (rt_all t Hd Hc v tr Ht He). Qed.
    format) and the value canon t v - provided the value is nested no deeper than the decoder's limit (the
    encoder has none; deeper documents are refused by the decoder since fix e74e260) *)
 Theorem C02_roundtrip : forall f byval name t v bs,
-  documented t = true -> covered t = true -> has_type t v = true -> all_bytesb name = true ->
+  documented t = true -> has_type t v = true -> all_bytesb name = true ->
   marshal f byval name t v = MOk bs ->
   exists tr, wf tr /\ bs = doc f name tr /\ tag_id tr = get_tag t v /\
              (nest_ok tr -> unmarshal f t bs = DOk (root_name f name) (canon t v) []).
 Proof.
-  intros f byval name t v bs Hd Hc Ht Hn Hm. eapply roundtrip_bytes; eauto. now apply rt_all.
+  intros f byval name t v bs Hd Ht Hn Hm. eapply roundtrip_bytes; eauto. now apply rt_all.
 Qed.
 
 (* NO PANIC: Marshal never panics on a value of any type of the universe (interfaces included, the untyped
@@ -80,9 +81,17 @@ Proof. exact fields_dominant. Qed.
 (* the encoder's field loop runs over exactly the entries of the table, in table order, each value fetched
    through the entry's OWN index sequence (`walk`), entries below a nil embedded pointer left out *)
 Theorem C02_encoder_visits : forall ds vs fs xs, reached (type_fields ds) vs = Some (fs, xs) ->
-  enc_emb ds vs = fields_enc (fun t x => enc t x) fs xs [] /\
+  enc_emb ds vs = fields_enc (fun t x => enc t x) (fun t x => enc_l t x) fs xs [] /\
   combine fs xs = flat_map (visit vs) (type_fields ds).
 Proof. exact enc_emb_spec. Qed.
+
+(* the decoder, after its field loop over the same table, holds every decoded value in the fresh struct at exactly
+   the index sequence of its table entry - the one the encoder fetched it through - with every embedded pointer
+   on the way allocated (acc: the values decoded per key) *)
+Theorem C02_decoder_stores : forall ds acc tf y,
+  In tf (type_fields ds) -> assoc (f_name (tf_fi tf)) acc = Some y ->
+  walk (tf_path tf) (rebuild_l (type_fields ds) acc [] O ds) = Some (Some y).
+Proof. exact decoder_stores. Qed.
 
 (* depth 3, two siblings at the innermost level (the shape of R3 in the harness): X and Y have different index
    sequences, each value travels through its own one and comes back in place; P hides nothing, Q is kept *)
@@ -132,7 +141,7 @@ Definition ex_val : gv :=
              GvList [GvList [GvInt (-1); GvInt 2147483647]; GvList []];
              GvMap [([98], GvPtr (Some (GvBool true))); ([97], GvPtr None)];
              GvRaw (Some (TList 8 [TString [104; 105]])); GvDyn (Some (TList 3 [])) ].
-Example C02_ex_hyp : documented ex_ty = true /\ covered ex_ty = true /\ has_type ex_ty ex_val = true.
+Example C02_ex_hyp : documented ex_ty = true /\ has_type ex_ty ex_val = true.
 Proof. repeat split; vm_compute; reflexivity. Qed.
 Example C02_ex_roundtrip : exists bs,
   marshal File true [114] ex_ty ex_val = MOk bs /\ lenN bs = 95 /\
@@ -143,6 +152,22 @@ Example C02_ex_roundtrip : exists bs,
                GvMap [([98], GvPtr (Some (GvBool true))); ([97], GvPtr (Some (GvBool false)))];
                GvRaw (Some (TList 8 [TString [104; 105]])); GvDyn (Some (TList 3 [])) ].
 Proof. eexists. repeat split; vm_compute; reflexivity. Qed.
+(* an interface-typed field holding a []any of strings, and a []*int32 with the `list` option and a nil element *)
+Definition ex_ty2 : gtype :=
+  YStruct [ (FInfo [105] false false false, YIface);
+            (FInfo [108] false true false, YSlice (YPtr (YInt true 32))) ].
+Definition ex_val2 : gv :=
+  GvStruct [ GvIface (Some (AList [AString [97]; AString []])); GvList [GvPtr (Some (GvInt (-1))); GvPtr None] ].
+Example C02_ex_iface_list : documented ex_ty2 = true /\ has_type ex_ty2 ex_val2 = true /\
+  (exists bs, marshal Net false [] ex_ty2 ex_val2 = MOk bs /\
+     unmarshal Net ex_ty2 bs = DOk [] (canon ex_ty2 ex_val2) [] /\
+     canon ex_ty2 ex_val2 = GvStruct [ GvIface (Some (AList [AString [97]; AString []]));
+                                       GvList [GvPtr (Some (GvInt (-1))); GvPtr (Some (GvInt 0))] ]).
+Proof.
+  split; [vm_compute; reflexivity|]. split; [vm_compute; reflexivity|].
+  eexists. split; [vm_compute; reflexivity|]. split; vm_compute; reflexivity.
+Qed.
+
 Definition ex_doc : tag := TCompound [([97], TList 3 []); ([98], TList 8 [TString [104]]); ([], TLongArray [(-1)%Z])].
 Example C02_ex_carrier : wf ex_doc /\ nest_ok ex_doc /\ nest_ok (TList 8 [TString [104; 105]]) /\
   dyn_reencode File [114] (dyn2_of ex_doc) = doc File [114] ex_doc.
@@ -157,3 +182,4 @@ Print Assumptions C02_carrier_dyn.
 Print Assumptions C02_fields_unique.
 Print Assumptions C02_fields_dominant.
 Print Assumptions C02_encoder_visits.
+Print Assumptions C02_decoder_stores.
